@@ -790,7 +790,25 @@ pub fn run(args: &Args) -> i32 {
     }
     let t0 = std::time::Instant::now();
     for n in args.case_numbers() {
-        let spec = gen_case(n, args.seed, &bases, &mut out);
+        // a bug in the generator must never look like a failure of the property
+        let spec = match std::panic::catch_unwind(std::panic::AssertUnwindSafe(|| {
+            gen_case(n, args.seed, &bases, &mut out)
+        })) {
+            Ok(spec) => spec,
+            Err(_) => {
+                out.count("generator-panicked");
+                CaseSpec {
+                    kind: "generator-fallback",
+                    notes: vec!["the case generator panicked; the unmutated hand-built module is used instead".into()],
+                    bytes: corpus_case(0).expect("corpus 0").0,
+                    runtime_source: gen_st::SIMPLE_RUNTIME.to_string(),
+                    resource: "none".into(),
+                    emitted: None,
+                    emit_failed: None,
+                    built: None,
+                }
+            }
+        };
         let res = pool.run(&spec.runtime_source, &spec.resource, &spec.bytes);
         out.line(format!("case {n}"));
         out.line(format!("# kind={} len={} {}", spec.kind, spec.bytes.len(), spec.notes.join(" ; ")));
